@@ -99,7 +99,7 @@ def document_string_to_object(*, document: str, document_type: DocumentType) -> 
         if not isinstance(parsed_document, dict):
             raise ValueError()
         return parsed_document
-    except (ValueError, json.decoder.JSONDecodeError, yaml.YAMLError):
+    except (ValueError, json.decoder.JSONDecodeError, yaml.YAMLError, RecursionError):
         raise DecodeValidationError(
             f"The document is not a valid {document_type.value} document consisting of key-value pairs."
         )
